@@ -39,6 +39,15 @@ CONNECTION WITH THE USE OR PERFORMANCE OF THIS SOFTWARE.
 
 #define NUM_CODES            314
 
+#if defined(LHASA_VERIF) && defined(LHASA_VERIF_LH1_NUM_CODES)
+// Verification hook: scaled instance of the adaptive tree
+// (see /verif/DESIGN.md).
+#undef NUM_CODES
+#define NUM_CODES            LHASA_VERIF_LH1_NUM_CODES
+#undef TREE_REORDER_LIMIT
+#define TREE_REORDER_LIMIT   LHASA_VERIF_LH1_REORDER_LIMIT
+#endif
+
 // Number of nodes in the code tree.
 
 #define NUM_TREE_NODES       (NUM_CODES * 2 - 1)
